@@ -139,6 +139,15 @@ func zzNumericShape(t *schemas.Type, s *zzSpec) {
 
 func zzF(v float64) *float64 { return &v }
 
+// zzEnumStrings: the two members of a string enum: plain words, or (ENUMTEXT=1) text with the
+// characters that matter to the code emitter (format verbs, quotes, backslash, newline).
+func zzEnumStrings() []string {
+	if zzvrt.Param("ENUMTEXT", 0) == 1 && zzvrt.Bool() {
+		return []string{"100%d %s", "a\"b\\c\nd"}
+	}
+	return []string{"red", "green"}
+}
+
 func zzLimit() int {
 	n := zzvrt.Int()
 	zzvrt.Assume(zzvrt.And(n > 0, n <= 1<<20))
@@ -250,8 +259,8 @@ func zzGen(mask int, depth int, allowNullable bool) (*schemas.Type, *zzSpec) {
 		if zzvrt.Bool() {
 			t.Type = schemas.TypeList{"string"}
 		}
-		s.enumS = []string{"red", "green"}
-		t.Enum = []interface{}{"red", "green"}
+		s.enumS = zzEnumStrings()
+		t.Enum = []interface{}{s.enumS[0], s.enumS[1]}
 	case zzKEnumInt:
 		s.kind = "enum-int"
 		if zzvrt.Bool() {
@@ -273,8 +282,8 @@ func zzGen(mask int, depth int, allowNullable bool) (*schemas.Type, *zzSpec) {
 		if zzvrt.Bool() {
 			t.Type = schemas.TypeList{"string", "null"}
 		}
-		s.enumS = []string{"red", "green"}
-		t.Enum = []interface{}{"red", "green", nil}
+		s.enumS = zzEnumStrings()
+		t.Enum = []interface{}{s.enumS[0], s.enumS[1], nil}
 	case zzKMap:
 		// an object without properties whose additionalProperties are typed: map[string]T
 		s.kind = "map"
@@ -290,6 +299,11 @@ func zzGen(mask int, depth int, allowNullable bool) (*schemas.Type, *zzSpec) {
 			t.AdditionalProperties = &schemas.Type{Type: schemas.TypeList{e}}
 		}
 		s.items = &zzSpec{kind: e}
+	}
+	if zzvrt.Param("DESC", 0) == 1 && zzvrt.Bool() {
+		// free text that ends up in comments of the emitted file
+		t.Description = "first line\nsecond */ line // with \"quotes\", `backticks`, 100%d and a trailing backslash \\"
+		t.Title = "A */ title\nwith a newline"
 	}
 	if zzvrt.Param("DEFAULTS", 0) == 1 && !(zzvrt.Param("NONULL", 0) == 1 && s.nullable) && zzvrt.Bool() {
 		switch s.kind {
@@ -312,8 +326,8 @@ func zzGen(mask int, depth int, allowNullable bool) (*schemas.Type, *zzSpec) {
 			s.hasDefault, s.defF = true, 0
 			t.Default = 0.0
 		case "enum-string":
-			s.hasDefault, s.defS = true, "green"
-			t.Default = "green"
+			s.hasDefault, s.defS = true, s.enumS[1]
+			t.Default = s.enumS[1]
 		case "array":
 			if s.items != nil && s.items.kind == "string" {
 				s.hasDefault = true
